@@ -189,6 +189,7 @@ class RecheckProp(Prop):
                 "noise": rng.random() < 0.3, "via_symlink": rng.random() < 0.2,
                 "version": v, "meta_src": src, "P": P, "tree": t, "damage": damage,
                 "route": route or ("cli" if rng.random() < 0.15 else "lib"),
+                "proto": rng.choice(("fresh", "fresh", "abandon", "twice", "after_iter")),
                 "path_mode": path_mode, "group": group or "none", "clauses": clauses,
                 "shape": sh}
 
